@@ -144,6 +144,16 @@ pub fn gen_packet(r: &mut Rng, chans: &[u8], hostile: bool) -> Packet {
         Bytes::from(r.bytes(len))
     };
     match r.below(5) {
+        // now and then as many tiny messages as one packet can hold (the count field is two bytes wide)
+        0 if r.chance(1, 8) => {
+            let cnt = *r.pick(&[255usize, 256, 257, 400, 590]);
+            let base = r.below(1000);
+            Packet::SmallReliable { sequence, channel_id, messages: (0..cnt).map(|i| (base + i as u64, Bytes::new())).collect() }
+        }
+        1 if r.chance(1, 8) => {
+            let cnt = *r.pick(&[255usize, 256, 257, 400, 1000]);
+            Packet::SmallUnreliable { sequence, channel_id, messages: (0..cnt).map(|_| Bytes::new()).collect() }
+        }
         0 => {
             let cnt = *r.pick(&[0usize, 1, 2, 5]);
             Packet::SmallReliable { sequence, channel_id, messages: (0..cnt).map(|_| (boundary_u62(r), msg(r))).collect() }
@@ -451,6 +461,20 @@ pub fn gen_pair(r: &mut Rng, g: &PairGen) -> Vec<Tree> {
                 sides[0].nout += 3;
                 ops.push(op_status(sides[0].ep));
             }
+        }
+    }
+    else if r.chance(1, 10) {
+        // more than 255 tiny messages in one tick on a reliable channel, without touching the counters: one packet
+        // carries several hundred of them
+        if let Some(c) = sides[0].send.iter().find(|c| c.ty != 0).cloned() {
+            let len = r.range(0, 3) as usize;
+            for _ in 0..r.range(257, 420) {
+                let m = pl.make(r, len);
+                ops.push(op_send(sides[0].ep, c.id, &m));
+            }
+            ops.push(op_flush(sides[0].ep));
+            sides[0].nout += 2;
+            ops.push(op_status(sides[0].ep));
         }
     }
     // a flush produces an unknown number of packets: track an estimate and let unresolved deliveries be skipped
